@@ -14,7 +14,8 @@ ASSUME_CONN = ["handler-supplied strings contain no NUL byte",
 
 def conn_family(cx, model, gen_prop, n_quick, n_thorough, consts_thorough=None, rule="", extra_models=(),
                 trace_module="Trace_PgConn", trace_cfg=None, mc_workers=1, known_match=None, gen_extra=None,
-                play_extra=None, negative=(), proj=None, max_replay_quick=6000, max_replay_thorough=60000):
+                play_extra=None, negative=(), proj=None, max_replay_quick=6000, max_replay_thorough=60000,
+                finish_now=True):
     """Generic procedure for properties decided on the single-connection machine."""
     build_harness(cx)
     thorough = cx.tier == "thorough"
@@ -47,6 +48,8 @@ def conn_family(cx, model, gen_prop, n_quick, n_thorough, consts_thorough=None, 
               play_extra=play_extra)
     count_distinct(cx, *[f[1] for f in files])
     cx.cov["trusted_base"] = TB_CONN
+    if not finish_now:
+        return rule
     return finish(cx, "model_checking", rule, ASSUME_CONN)
 
 
@@ -142,17 +145,27 @@ def c01(cx):
 
 
 def c12(cx):
-    return conn_family(
+    rule = conn_family(
         cx, "MC_C12", "C12", 1000, 20000,
         consts_thorough={"MaxKvs": 3},
         rule="TLC explores startup negotiation on the bounded model: every startup packet of up to MaxKvs pairs over 3 "
              "keys x {value, empty} (duplicates, missing terminator), 4 configured parameter maps (empty, plain, colliding "
-             "with the built-in keys), version set/unset, auth on/off, refused SSL before, CancelRequest at each stage, then "
-             "one query; it checks the ParameterStatus block (one message per key, built-ins override) and that the "
-             "configuration never changes. The transition cover runs on the real server; TLC validates the auth exchange, "
-             "the ParameterStatus set (each key once, any order), one ReadyForQuery(idle), the client/server parameters "
-             "seen by middleware, parser and statement callbacks, and that the user's global map is unchanged after the "
-             "run. Random driver: random keys, long values, random maps.")
+             "with the built-in keys), version set/unset, auth on/off, refused SSL before, CancelRequest at each stage - "
+             "also inside an accepted TLS session - then one query; it checks the ParameterStatus block (one message per "
+             "key, built-ins override) and that the configuration never changes. The transition cover runs on the real "
+             "server; TLC validates the auth exchange, the ParameterStatus set (each key once, any order), one "
+             "ReadyForQuery(idle), the client/server parameters seen by middleware, parser and statement callbacks, and "
+             "that the user's global map is unchanged after the run. Random driver: random keys, long values, random maps. "
+             "Concurrent users: interleavings of 2 sessions of different users on one server (scheduler model MC_C15), "
+             "every connection validated alone - what its callbacks see as server parameters must be its own.",
+        finish_now=False)
+    # per-connection values never leak between concurrent connections
+    b = model_check(cx, "MC_C15")
+    subsample(cx, b, 2000 if cx.tier == "thorough" else 120)
+    trace, crash = play(cx, b, "multi", cmd="multi", extra=["-proj", "C12"])
+    rejected = [] if crash else validate(cx, trace, "Trace_PgConn")
+    judge(cx, b, trace, rejected, crash, "Trace_PgConn", play_cmd="multi", play_extra=["-proj", "C12"])
+    return finish(cx, "model_checking", rule, ASSUME_CONN)
 
 
 def c19(cx):
